@@ -83,6 +83,8 @@ func cmdExplore(args []string) {
 	verif := fs.String("verif", defaultVerifDir, "verif dir")
 	panicClause := fs.String("panic", "", "clause for panics")
 	cert := fs.Int("cert", 0, "partition certificate max bits")
+	steps := fs.Int64("steps", 0, "per-path step budget (0 = default 20,000,000)")
+	budgetClause := fs.String("budget", "", "clause for step-budget exhaustion")
 	cpuprof := fs.String("cpuprofile", "", "write cpu profile")
 	fs.Parse(args)
 	var ps []int64
@@ -210,7 +212,7 @@ func cmdExplore(args []string) {
 	}
 	symgo.DebugTrace = os.Getenv("SYMGO_DEBUG") == "trace"
 	symgo.NoCache = os.Getenv("SYMGO_NOCACHE") != ""
-	cfg := &symgo.Config{Prog: prog, Pkg: *pkg, Harness: *h, Params: ps, Workers: *workers, PanicClause: *panicClause, SampleN: 5, Cert: *cert}
+	cfg := &symgo.Config{Prog: prog, Pkg: *pkg, Harness: *h, Params: ps, Workers: *workers, PanicClause: *panicClause, BudgetClause: *budgetClause, StepBudget: *steps, SampleN: 5, Cert: *cert}
 	if *timeout > 0 {
 		cfg.Deadline = time.Now().Add(*timeout)
 	}
